@@ -150,6 +150,7 @@ def check_malloc_cpp(ctx, tu, tag, keytag):
     mpaths = analyse(ctx, R, inst, tu, f)
     gpaths = analyse(ctx, R, 'alignedFree [%s]' % tag, tu, g)
     n += 2
+    tokens = []             # (lo, hi, expression, loc, is-the-alignment-itself): non-block values alignedMalloc hands out
     producers = {}          # allocation primitive -> (location of the call, description of the path)
     reuse = {}              # persistent cell whose content alignedMalloc hands out again -> path
     malloc_decided = mpaths is not None
@@ -209,6 +210,19 @@ def check_malloc_cpp(ctx, tu, tag, keytag):
                     FAMILIES[bare(ret[1])].get('out') == ret[2]:
                 prod = next((e for e in al if e[1] == ret[1]), None)
             is_null = p.ret.as_int() == 0
+            rv0 = deconv(unconv(p.ret))
+            if prod is None and not is_null and not al and isinstance(rv0, Poly) and only_params(rv0, [size, align]):
+                # a value computed from the arguments alone is handed out instead of a block: an address *token* (e.g. for
+                # empty requests).  It has to be a multiple of the requested alignment, and alignedFree has to recognise it.
+                lin = rv0.linear_in(align.as_atom())
+                if lin is not None and lin[1].as_int() == 0 and lin[0] >= 1 and lin[0].denominator == 1:
+                    tlo, thi = rv0.range(p.bounds)
+                    tokens.append((max(tlo, 0), thi, rv0, tu.fn_loc(f), lin[0] == 1))
+                else:
+                    bad = True
+                    ctx.undecided(R, inst, 'a path returns the computed value `%s` instead of a block; cannot show that it is a multiple of '
+                                  'the requested alignment' % show_val(p.ret), tu.fn_loc(f))
+                continue
             if prod is None and not is_null:
                 # neither a fresh block nor null: a block kept from an earlier release is handed out again
                 v = check_reuse(ctx, R, inst, key, tu, f, p, size, align, gpaths, reuse)
@@ -305,6 +319,32 @@ def check_malloc_cpp(ctx, tu, tag, keytag):
             if hi == 0:
                 continue     # nothing to release for a null pointer
             fr = p.calls(lambda q: bare(q) in FREES)
+            if not fr and tokens and all(any(tl <= max(lo, 1) and hi <= th for tl, th, _x, _l, _a in tokens) for _ in (0,)):
+                continue     # only values that alignedMalloc hands out as tokens (never blocks) skip the release
+            if fr and tokens:
+                hit = None
+                for tl, th, tx, tloc, is_align in tokens:
+                    ilo, ihi = max(lo, tl, 1), min(hi, th)
+                    if ilo > ihi:
+                        continue
+                    v = ilo
+                    if is_align:                      # tokens are alignments, i.e. powers of two
+                        v = 1
+                        while v < ilo:
+                            v *= 2
+                    if v <= ihi:
+                        hit = (int(v), tx, tloc)
+                        break
+                if hit:
+                    bad = True
+                    ctx.violation(R, inst, 'alignedMalloc hands out the token `%s` (a value, not a block) for some requests - among them the '
+                                  'value %d - but alignedFree passes a pointer equal to %d on to %s (its test for tokens covers only ptr in '
+                                  '%s on the skipping path): the token of that request is released as if it were a block'
+                                  % (show_val(hit[1]), hit[0], hit[0], bare(fr[0][1]),
+                                     ' / '.join(rng(*q.bounds(pa)) for q in gpaths if q.kind == 'return' and
+                                                not q.calls(lambda qq: bare(qq) in FREES)) or 'nothing'), fr[0][4],
+                                  key=key + 'token-released-as-block')
+                    continue
             kept = [loc for loc, v in p.stores().items() if v == ptr and persistent(loc)]
             own = [e for e in fr if e[3] and (e[3][0] == ptr or is_backptr_load(e[3][0], ptr, producers))]
             evict = [e for e in fr if e[3] and isinstance(e[3][0], Poly) and e[3][0].as_atom() in kept]
@@ -771,6 +811,18 @@ def check_allocator(ctx, tu, tag):
             P, Tv = params(f)
             bad = False
             how = set()
+            for x in tu.walk(tu.body(f)) if tu.body(f) is not None else ():
+                if x.get('kind') == 'CallExpr' and tu.sd(x).get('q') == 'std::move' and len(tu.kids(x)) == 2:
+                    a0 = tu.strip(tu.kids(x)[1], casts=True)
+                    rd = a0.get('referencedDecl', {}) if a0 is not None and a0.get('kind') == 'DeclRefExpr' else {}
+                    pty = rd.get('type', {}).get('qualType', '').rstrip()
+                    if rd.get('kind') == 'ParmVarDecl' and pty.endswith('&') and not pty.endswith('&&'):
+                        bad = True
+                        ctx.violation('R-C14-5', inst, 'construct(p, u) applies std::move to its parameter `%s`, which in this instantiation is '
+                                      'bound to the caller\'s lvalue (%s): the element is move-constructed from an object the caller still '
+                                      'owns (emplace_back(x), insert/assign from non-const iterators leave their sources emptied); a forwarding '
+                                      'reference must be passed on with std::forward<U>(u)' % (rd.get('name'), pty), tu.loc(x),
+                                      key='R-C14-5|%s|aligned_allocator::construct|lvalue-moved-from' % file)
             for p in paths:
                 if p.kind != 'return':
                     continue            # the element's copy constructor may throw
@@ -1040,6 +1092,17 @@ def check_allocate_paths(ctx, R, inst, key, tu, f, paths, sz, A, M):
                    'small and regains it when it grows)' % (rng(lo, hi), 'reduced by the loop in front of the call' if
                    isinstance(aa.as_atom(), tuple) and aa.as_atom()[0] == 'widen' else show_val(aa), int(aa.range(p.bounds)[1]), A, A), e[4],
                    key + 'alignment-argument-smaller-than-template-argument')
+            continue
+        ac = aa.as_int() if aa is not None else None
+        if ac is not None and ac != A and ac > A and (ac & (ac - 1)) == 0 and (A & (A - 1)) == 0:
+            ac = A          # a larger power of two (e.g. alignof of an over-aligned T): a multiple of A, the block is A-aligned as well
+            aa = Poly.const(A)
+        elif ac is not None and ac > A and (ac & (ac - 1)) != 0:
+            bad = True
+            report(ctx, p, R, inst, 'alignedMalloc is asked for the alignment %d, which is not a power of two (sizeof(T) = %d taken for an '
+                   'alignment?): the back ends require a power of two - the request is refused or the block is not %d-byte aligned; '
+                   'required: the template argument %d (or a larger power of two)' % (ac, sz, A, A), e[4],
+                   key + 'alignment-argument-not-power-of-two')
             continue
         if aa is None or aa.as_int() != A:
             bad = True
